@@ -53,6 +53,26 @@ func TestVerifC15(t *testing.T) {
 	}
 
 	lambdas := func(lr *hk.RNG) *big.Int {
+		if lr.Intn(3) == 0 {
+			// limb patterns: each 64-bit limb of Z drawn from {0, 1, 2^64-1, random}
+			v := new(big.Int)
+			for limb := 3; limb >= 0; limb-- {
+				v.Lsh(v, 64)
+				switch lr.Intn(4) {
+				case 1:
+					v.Or(v, bi(1))
+				case 2:
+					v.Or(v, new(big.Int).SetUint64(^uint64(0)))
+				case 3:
+					v.Or(v, new(big.Int).SetUint64(lr.Uint64()))
+				}
+			}
+			v.Mod(v, ref.SM2P)
+			if v.Sign() == 0 {
+				v = bi(1)
+			}
+			return v
+		}
 		switch lr.Intn(5) {
 		case 0:
 			return bi(1)
@@ -269,6 +289,128 @@ func TestVerifC15(t *testing.T) {
 			r.Violation("decode-after-arithmetic-no-longer-roundtrips", d)
 		}
 		r.Eval("decoded-as-receiver:" + op)
+	}
+	// ---- stateful walk: a small pool of long-lived point OBJECTS is driven through random sequences of
+	//      every mutator and of the scalar multiplications, each object shadowed by the model's value.
+	//      After every step ALL objects are compared with their shadows (state must not leak between
+	//      objects or survive an update), and the fast/safe conversions must agree.
+	for walk := 0; walk < hk.N(40, 400); walk++ {
+		lr := hk.NewRNG(hk.Seed(), fmt.Sprintf("c15walk/%d", walk))
+		const nObj = 4
+		objs := make([]*SM2Point, nObj)
+		shadow := make([]ref.Pt, nObj)
+		for i := range objs {
+			shadow[i] = pool[lr.Intn(len(pool))].P
+			objs[i] = fromRef(shadow[i], lambdas(lr))
+		}
+		var hist []string
+		for step := 0; step < 30; step++ {
+			a, b, c := lr.Intn(nObj), lr.Intn(nObj), lr.Intn(nObj)
+			op := lr.Intn(12)
+			switch op {
+			case 0:
+				objs[a].Add(objs[b], objs[c])
+				shadow[a] = shadow[b].Add(shadow[c])
+				hist = append(hist, fmt.Sprintf("o%d.Add(o%d,o%d)", a, b, c))
+			case 1:
+				objs[a].Double(objs[b])
+				shadow[a] = shadow[b].Dbl()
+				hist = append(hist, fmt.Sprintf("o%d.Double(o%d)", a, b))
+			case 2:
+				objs[a].Negate(objs[b])
+				shadow[a] = shadow[b].Neg()
+				hist = append(hist, fmt.Sprintf("o%d.Negate(o%d)", a, b))
+			case 3:
+				cond := lr.Intn(2)
+				objs[a].Select(objs[b], objs[c], cond)
+				if cond == 1 {
+					shadow[a] = shadow[b]
+				} else {
+					shadow[a] = shadow[c]
+				}
+				hist = append(hist, fmt.Sprintf("o%d.Select(o%d,o%d,%d)", a, b, c, cond))
+			case 4:
+				objs[a].Set(objs[b])
+				shadow[a] = shadow[b]
+				hist = append(hist, fmt.Sprintf("o%d.Set(o%d)", a, b))
+			case 5:
+				var enc []byte
+				if shadow[b].Inf {
+					enc = []byte{0}
+				} else {
+					enc = append([]byte{4}, append(ref.B32(shadow[b].X), ref.B32(shadow[b].Y)...)...)
+				}
+				if _, err := objs[a].SetBytes(enc); err != nil {
+					r.Violation("walk:setbytes-rejects-valid-encoding", hk.D{"history": hist})
+				}
+				shadow[a] = shadow[b]
+				hist = append(hist, fmt.Sprintf("o%d.SetBytes(enc(o%d))", a, b))
+			case 6, 7:
+				// variable-point multiplication of a long-lived object (result into another object)
+				k := lr.Bytes([]int{32, 32, 1, 16, 33}[lr.Intn(5)])
+				if lr.Intn(4) == 0 {
+					k = ref.B32(bi(int64(lr.Intn(40))))
+				}
+				res, err := ScalarMult(objs[b], k)
+				if err != nil {
+					r.Violation("walk:scalarmult-error", hk.D{"history": hist})
+					continue
+				}
+				want := shadow[b].Mul(new(big.Int).SetBytes(k))
+				if g, _ := toRef(res); !g.Eq(want) {
+					r.Violation("walk:scalarmult-wrong-on-long-lived-point", hk.D{"history": append(hist, fmt.Sprintf("ScalarMult(o%d,%x)", b, k)), "P": ptHex(shadow[b]), "k": hk.Hex(k), "got": ptHex(g), "want": ptHex(want)})
+				}
+				objs[a].Set(res)
+				shadow[a] = want
+				hist = append(hist, fmt.Sprintf("o%d.Set(ScalarMult(o%d,%x))", a, b, k))
+			case 8:
+				g, sc := lr.Bytes(32), lr.Bytes(32)
+				if lr.Intn(3) == 0 {
+					sc = ref.B32(bi(int64(lr.Intn(9000))))
+				}
+				res, err := ScalarMixedMult_Unsafe(g, objs[b], sc)
+				if err != nil {
+					continue
+				}
+				want := ref.BaseMulFast(new(big.Int).SetBytes(g)).Add(shadow[b].Mul(new(big.Int).SetBytes(sc)))
+				if gg, _ := toRef(res); !gg.Eq(want) {
+					r.Violation("walk:mixedmult-wrong-on-long-lived-point", hk.D{"history": append(hist, fmt.Sprintf("MixedMult(%x,o%d,%x)", g, b, sc))})
+				}
+				objs[a].Set(res)
+				shadow[a] = want
+				hist = append(hist, fmt.Sprintf("o%d.Set(MixedMult(g,o%d,s))", a, b))
+			case 9:
+				k := lr.Bytes(32)
+				res, _ := ScalarBaseMult(k)
+				want := ref.BaseMulFast(new(big.Int).SetBytes(k))
+				objs[a].Set(res)
+				shadow[a] = want
+				hist = append(hist, fmt.Sprintf("o%d.Set(ScalarBaseMult)", a))
+			case 10:
+				// rescale the representation in place: same point, different (X:Y:Z)
+				objs[a] = fromRef(shadow[a], lambdas(lr))
+				hist = append(hist, fmt.Sprintf("o%d:=rescaled", a))
+			default:
+				// conversions on a long-lived object
+				var want []byte
+				if shadow[a].Inf {
+					want = []byte{0}
+				} else {
+					want = append([]byte{4}, append(ref.B32(shadow[a].X), ref.B32(shadow[a].Y)...)...)
+				}
+				if !bytes.Equal(objs[a].Bytes(), want) || !bytes.Equal(objs[a].Bytes_Unsafe(), want) {
+					r.Violation("walk:bytes-wrong-on-long-lived-point", hk.D{"history": hist})
+				}
+				hist = append(hist, fmt.Sprintf("o%d.Bytes()", a))
+			}
+			for i := range objs {
+				if g, _ := toRef(objs[i]); !g.Eq(shadow[i]) {
+					r.Violation("walk:object-differs-from-shadow", hk.D{"history": hist, "object": i, "got": ptHex(g), "want": ptHex(shadow[i])})
+					shadow[i] = g // resynchronise so that one defect is reported once per walk
+				}
+			}
+		}
+		r.Eval(fmt.Sprintf("walk:ops=%d", len(hist)))
 	}
 	// package-level state must be what it was: the generator, b, 1 and [1]G
 	{
